@@ -295,7 +295,7 @@ def msh9_text(v, name):
 def field_unit(v, seg, res):
     from hl7apy.core import Message
     from hl7apy.parser import parse_message
-    if tables.segment_anomaly(v, seg) or tables.row_anomalies(v, seg) or tables.has_gap(v, seg) or seg == 'MSH':
+    if tables.segment_anomaly(v, seg) or tables.row_anomalies(v, seg) or seg == 'MSH':
         res.blocked['segment with anomalous rows / MSH'] += 1
         return
     name = host(v, seg)
